@@ -138,6 +138,11 @@ OPTSETS = [
      "nl_end_of_file": "force", "nl_end_of_file_min": 1},
     {"cmt_width": 40, "cmt_reflow_mode": 2, "cmt_star_cont": "true", "newlines": "crlf"},
     {"disable_processing_nl_cont": "true", "indent_columns": 4, "sp_before_nl_cont": "force"},
+    # newline-removing and token-adding options next to a region
+    {"nl_brace_else": "remove", "nl_else_brace": "remove", "nl_if_brace": "remove", "nl_remove_extra_newlines": 2},
+    {"nl_remove_extra_newlines": 1, "nl_after_semicolon": "true", "nl_brace_else": "force"},
+    {"mod_case_brace": "add", "mod_move_case_return": "true", "mod_move_case_break": "true", "mod_enum_last_comma": "add"},
+    {"nl_squeeze_ifdef": "true", "nl_func_leave_one_liners": "true", "nl_collapse_empty_body": "true", "nl_fdef_brace": "remove"},
 ]
 
 
@@ -225,6 +230,12 @@ def run(ctx):
                     key = {"kind": "brace-appended-to-region-line"}
                 elif "whitespace-only region line rewritten" in why:
                     key = {"kind": "region-blank-rewritten"}
+                elif why.startswith("non-blank region lines added") and j.meta["opts"].get("mod_case_brace") in ("add", "force"):
+                    m = re.search(r"\((\d+) -> (\d+)\)", why)
+                    if m and int(m.group(2)) > int(m.group(1)):
+                        key = {"kind": "case-brace-inserted-inside-region"}
+                elif why.startswith("blank lines at the end of the region") and str(j.meta["opts"].get("nl_remove_extra_newlines", 0)) in ("1", "2"):
+                    key = {"kind": "region-blank-lines-removed", "opt": "nl_remove_extra_newlines"}
                 if ctx.violation("%s [run %s, marker %s]" % (why, j.name, j.meta["marker"]), _replay(j), key=key, found_input=True):
                     obad += 1
             tw = j.meta.get("twin_of")
